@@ -128,7 +128,7 @@ func c17RuleB(e *c04Env) {
 			if !ok {
 				return false
 			}
-			if ci.Common().StaticCallee() == e.remove {
+			if c04Callee(ci) == e.remove {
 				return true
 			}
 			return ci.Common().IsInvoke() && ci.Common().Method.Name() == "Release"
@@ -138,15 +138,15 @@ func c17RuleB(e *c04Env) {
 			switch x := in.(type) {
 			case ssa.CallInstruction:
 				cc := x.Common()
-				if cc.StaticCallee() == e.remove && isN(cc.Args[0]) {
+				if c04Callee(x) == e.remove && isN(cc.Args[0]) {
 					how = "RemoveAndReleaseTree(" + n.Name() + ")"
 					return st, c04Stop
 				}
-				if cc.IsInvoke() && cc.Method.Name() == "Release" && len(cc.Args) == 1 && isN(cc.Args[0]) {
+				if cc.IsInvoke() && c04Callee(x) == nil && cc.Method.Name() == "Release" && len(cc.Args) == 1 && isN(cc.Args[0]) {
 					how = "delegates to " + core.ObjKey(cc.Method)
 					return st, c04Stop
 				}
-				if cf := cc.StaticCallee(); cf != nil && cf != f && isRel[cf] && len(cc.Args) == 2 && isN(cc.Args[1]) {
+				if cf := c04Callee(x); cf != nil && cf != f && isRel[cf] && len(c04CallArgs(x)) == 2 && isN(c04CallArgs(x)[1]) {
 					how = "delegates to " + core.FuncKey(cf)
 					return st, c04Stop
 				}
@@ -230,10 +230,8 @@ func c17RuleC(e *c04Env) {
 					continue
 				}
 				for _, u2 := range core.Referrers(ex) {
-					if st, ok := u2.(*ssa.Store); ok && st.Val == ssa.Value(ex) {
-						if fa, ok := st.Addr.(*ssa.FieldAddr); ok {
-							holder = core.FieldOfAddr(fa)
-						}
+					if fld, sv, ok := c04StoreEvent(u2); ok && sv == ssa.Value(ex) {
+						holder = fld
 					}
 				}
 			}
@@ -242,33 +240,28 @@ func c17RuleC(e *c04Env) {
 			c.Unknown("R17c", key, f.Pos(), "the node returned by the reader is not kept in a field: cannot identify the raw-record holder")
 			continue
 		}
-		isH := c04FieldHolderPred(holder)
 		isReadCall := map[ssa.CallInstruction]bool{}
 		for _, rc := range readCalls {
 			isReadCall[rc] = true
 		}
 		why := ""
 		const knownNil, released, cleared = 1, 2, 4
-		isHLoad := func(v ssa.Value) bool {
-			u, ok := v.(*ssa.UnOp)
-			return ok && u.Op == token.MUL && isH(u.X)
-		}
+		isHLoad := func(v ssa.Value) bool { return c04IsLoadOf(v, holder) }
 		helper := e.helperPred(func(in ssa.Instruction) bool {
-			if st, ok := in.(*ssa.Store); ok && isH(st.Addr) {
+			if _, ok := c04StoreTo(in, holder); ok {
 				return true
 			}
 			ci, ok := in.(ssa.CallInstruction)
 			return ok && ci.Common().IsInvoke() && ci.Common().Method.Name() == "Release"
 		})
 		fail, _ := c04WalkInl(f.Blocks[0], 0, 0, func(w *c04Walker, in ssa.Instruction, st int) (int, int) {
-			switch x := in.(type) {
-			case *ssa.Store:
-				if isH(x.Addr) {
-					if core.IsNilConst(x.Val) {
-						return st | cleared, c04Cont
-					}
-					return st &^ (knownNil | released | cleared), c04Cont
+			if v, ok := c04StoreTo(in, holder); ok {
+				if core.IsNilConst(w.resolve(v)) {
+					return st | cleared, c04Cont
 				}
+				return st &^ (knownNil | released | cleared), c04Cont
+			}
+			switch x := in.(type) {
 			case ssa.CallInstruction:
 				cc := x.Common()
 				if cc.IsInvoke() && cc.Method.Name() == "Release" && len(cc.Args) == 1 && isHLoad(w.resolve(cc.Args[0])) {
@@ -292,7 +285,7 @@ func c17RuleC(e *c04Env) {
 			if st&cleared != 0 && st&released == 0 {
 				return st
 			}
-			if k := c04NilTestEdge(from, isHLoad); k >= 0 && k == succ {
+			if k := c04NilTestEdge(from, func(v ssa.Value) bool { return isHLoad(w.resolve(v)) }); k >= 0 && k == succ {
 				return st | knownNil
 			}
 			return st
@@ -317,7 +310,7 @@ func c17NeverAttached(e *c04Env, fn *ssa.Function, v ssa.Value) bool {
 	}
 	usedAsChild := func(f *ssa.Function, val ssa.Value) bool {
 		for _, ci := range core.Calls(f) {
-			if ci.Common().StaticCallee() == e.addChild && ci.Common().Args[1] == val {
+			if c04Callee(ci) == e.addChild && ci.Common().Args[1] == val {
 				return true
 			}
 		}
@@ -326,7 +319,7 @@ func c17NeverAttached(e *c04Env, fn *ssa.Function, v ssa.Value) bool {
 	if usedAsChild(fn, v) {
 		return false
 	}
-	cf := call.Call.StaticCallee()
+	cf := c04Callee(call)
 	if cf == nil || cf.Blocks == nil || !core.InRepo(core.FuncPkg(cf)) {
 		return false
 	}
@@ -454,12 +447,12 @@ func c17RuleD(e *c04Env, rts []*types.TypeName, cursor map[*types.TypeName]*c04R
 				why := ""
 				helper := e.helperPred(func(in ssa.Instruction) bool {
 					ci, ok := in.(ssa.CallInstruction)
-					return ok && ci.Common().StaticCallee() == e.remove
+					return ok && c04Callee(ci) == e.remove
 				})
 				fail, _ := c04WalkInl(rej, 0, 0, func(w *c04Walker, in ssa.Instruction, st int) (int, int) {
 					switch x := in.(type) {
 					case ssa.CallInstruction:
-						if x.Common().StaticCallee() == e.remove {
+						if c04Callee(x) == e.remove {
 							for _, cv := range cands {
 								if w.same(x.Common().Args[0], cv) {
 									return st, c04Stop
@@ -543,6 +536,9 @@ func c17ContentDerived(u ssa.Value) (alias, derived map[ssa.Value]bool) {
 					push(alias, x)
 				}
 			case *ssa.BinOp:
+				if core.IsNilConst(x.X) || core.IsNilConst(x.Y) {
+					continue // a nil test says nothing about the content
+				}
 				push(derived, x)
 			case *ssa.UnOp:
 				if x.Op != token.MUL {
@@ -612,7 +608,14 @@ func c17RuleE(e *c04Env) {
 				vals = append(vals, v)
 			}
 			sort.Slice(vals, func(i, j int) bool { return vals[i].Pos() < vals[j].Pos() })
-			for _, v := range vals {
+			done := map[ssa.Value]bool{}
+			for len(vals) > 0 {
+				v := vals[0]
+				vals = vals[1:]
+				if done[v] {
+					continue
+				}
+				done[v] = true
 				for _, r := range core.Referrers(v) {
 					if bad != nil {
 						break
@@ -623,9 +626,24 @@ func c17RuleE(e *c04Env) {
 						// aliases (examined themselves) and content computations
 					case *ssa.UnOp:
 					case *ssa.Phi:
+						// the unit flows into a loop / merge variable: fine if the edge it arrives on is guarded; otherwise the
+						// variable carries the (possibly blank) unit and its own uses must be guarded by conditions on it
+						// (`for len(b) == 0 { b = read() }; use(b)`)
 						for i, ed := range x.Edges {
-							if ed == v && i < len(x.Block().Preds) && !guarded(x.Block().Preds[i]) {
-								bad = x
+							if ed == v && i < len(x.Block().Preds) && !guarded(x.Block().Preds[i]) && !done[x] {
+								a2, d2 := c17ContentDerived(x)
+								for k := range d2 {
+									derived[k] = true
+								}
+								var more []ssa.Value
+								for k := range a2 {
+									if !alias[k] {
+										alias[k] = true
+										more = append(more, k)
+									}
+								}
+								sort.Slice(more, func(i, j int) bool { return more[i].Name() < more[j].Name() })
+								vals = append(vals, more...)
 							}
 						}
 					case *ssa.Call:
@@ -711,7 +729,7 @@ func c17CharData(e *c04Env, r *c04Reader, m *ssa.Function, ta *ssa.TypeAssert) {
 	sweeps := false
 	for _, f := range r.methods {
 		for _, ci := range core.Calls(f) {
-			if ci.Common().StaticCallee() != e.remove {
+			if c04Callee(ci) != e.remove {
 				continue
 			}
 			a := ci.Common().Args[0]
@@ -756,7 +774,7 @@ func c17CharData(e *c04Env, r *c04Reader, m *ssa.Function, ta *ssa.TypeAssert) {
 	fail, _ := c04WalkInl(entry, 0, 0, func(w *c04Walker, in ssa.Instruction, st int) (int, int) {
 		switch x := in.(type) {
 		case ssa.CallInstruction:
-			cf := x.Common().StaticCallee()
+			cf := c04Callee(x)
 			if cf == e.addChild && c04IsLoadOf(x.Common().Args[0], r.cur) {
 				return judge(w, in, st)
 			}
